@@ -16,6 +16,7 @@
 package gomatrixserverlib
 
 import (
+	"bytes"
 	"encoding/json"
 	"fmt"
 
@@ -46,6 +47,10 @@ func SignJSON(signingName string, keyID KeyID, privateKey ed25519.PrivateKey, me
 	}
 	if err = unmarshalExact(message, &preserve); err != nil {
 		return nil, err
+	}
+	if trimmed := bytes.TrimLeft(message, " \t\r\n"); len(trimmed) == 0 || trimmed[0] != '{' {
+		// the JSON text null decodes into the struct without complaint
+		return nil, fmt.Errorf("gomatrixserverlib: cannot sign JSON that is not an object")
 	}
 	if preserve.Signatures == nil {
 		// no signatures yet, or "signatures": null
